@@ -5,45 +5,66 @@ package server
 
 // ---- C19 (server/prompt.go) ----
 
+// Property C19: "Chat prompt keeps newest messages that fit, system messages, each image once".
+//
 // External callees of chatPrompt (trusted, listed in the evidence):
-// template.(*Template).Execute renders into w and reads v (collate copies every message
-// before merging), so the only caller-visible memory it writes is the buffer behind w.
+// template.(*Template).Execute renders into w and only reads v (collate copies every message
+// before merging contents), so the only caller-visible memory it writes is the buffer behind w.
 //@ extern func template.(*Template).Execute
 //@   modifies boxed(w)
-// tokenize is the runner's Tokenize method value (an HTTP round trip to the runner): it reads
-// the string and writes nothing in the caller's memory.
+// tokenize is the runner's Tokenize method value (an HTTP round trip to the runner process): it
+// reads the string and writes nothing in the caller's memory. Operands: arg0 ctx, arg1 the text.
 //@ extern func (tokenizeFunc)
 //@   modifies nothing
+// mllama.Preprocess decodes the image from the reader (advances it) and returns fresh data.
 //@ extern func model/models/mllama.Preprocess
 //@   modifies imageData.ghost_pos
 
 //@ func checkMllamaModelFamily
 //@   modifies nothing
 
-// Loop ordinals of chatPrompt: 1 outer reverse loop (i)  2 for j := range i  3 image tokens over msgs[i:]
-// 4 for cnt, msg := range msgs[currMsgIdx:]  5 for _, i := range msg.Images
-//
-// Ghost enumeration of the system messages (definitional preconditions: for every msgs there is
-// exactly one such pair of functions on the relevant arguments, so they do not restrict the inputs):
-// c19nsys(j) = number of system messages among msgs[0:j], c19sidx(p) = index of the p-th system message.
+// Ghost names used by the chatPrompt contract. The first three are introduced by definitional
+// preconditions: for every conversation there is an interpretation that satisfies them, so they do
+// not restrict the inputs (this engine has no recursive spec functions over slices of structs).
+//   c19nsys(j) = number of system messages among msgs[0:j]
+//   c19sidx(p) = index in msgs of the p-th system message (inverse of c19nsys on system messages)
+//   c19nimg(j) = number of images attached to msgs[0:j]
+//   c19tok(k)  = the token count the tokenizer reported for the candidate prompt that starts at
+//                message k (system messages among msgs[0:k] followed by msgs[k:]); the walk renders
+//                every k at most once, so naming the observed value is not a restriction either.
 //@ spec func c19nsys(j int) int
 //@ spec func c19sidx(p int) int
-// c19nimg(j) = number of images attached to msgs[0:j]
 //@ spec func c19nimg(j int) int
-// c19tok(k) names the token count the tokenizer reported for the candidate prompt that starts at
-// message k (system messages among msgs[0:k] + msgs[k:]); every k is rendered at most once.
 //@ spec func c19tok(k int) int
 
+// Loop ordinals: 1 outer reverse walk (i)   2 for j := range i   3 image tokens over msgs[i:]
+//                4 for cnt, msg := range msgs[currMsgIdx:]   5 for _, i := range msg.Images
+// Calls: Execute #1 / (tokenizeFunc) #1 / Debug #1 inside loop 1; append #1 (system), #2 (candidate),
+//        #3 (images), #4 (final message list); Execute #2 the final rendering.
 //@ func chatPrompt
+//   the only caller (ChatHandler) returns before the call when the request has no messages;
+//   without this precondition safe.slice (msgs[currMsgIdx:] with currMsgIdx == -1) fails
 //@   requires len(msgs) >= 1
 //@   requires c19nsys(0) == 0
 //@   requires forall j int :: 0 <= j && j < len(msgs) ==> c19nsys(j+1) == c19nsys(j) + ite(msgs[j].Role == "system", 1, 0)
 //@   requires forall j int :: 0 <= j && j < len(msgs) && msgs[j].Role == "system" ==> c19sidx(c19nsys(j)) == j
 //@   requires c19nimg(0) == 0
 //@   requires forall j int :: 0 <= j && j < len(msgs) ==> c19nimg(j+1) == c19nimg(j) + len(msgs[j].Images)
+//   range precondition: at most 2^40 images in a conversation (no overflow in the image token count)
 //@   requires forall j int :: 0 <= j && j <= len(msgs) ==> 0 <= c19nimg(j) && c19nimg(j) <= (1 << 40)
+//
+//   images are numbered by their position in the returned list
 //@   ensures forall k int :: 0 <= k && k < len(images) ==> images[k].ID == k
 //
+//   (1) SYSTEM MESSAGES. On the break path the retained suffix starts at i+1, so `system` must hold
+//   the system messages among msgs[0:i+1]; it holds those among msgs[0:i] (loop 2). This is the
+//   assertion that FAILS on the pinned tree (a system message at index i is dropped).
+//@   assert-at call Debug #1 : forall q int :: 0 <= q && q < i + 1 && msgs[q].Role == "system" ==> 0 <= c19nsys(q) && c19nsys(q) < len(system) && system[c19nsys(q)].Role == msgs[q].Role && system[c19nsys(q)].Content == msgs[q].Content
+//   (2) MAXIMALITY. The walk stops only at a candidate that does not fit.
+//@   assert-at call Debug #1 : c19tok(i) + ite(m.ProjectorPaths != nil, imageNumTokens * (c19nimg(len(msgs)) - c19nimg(i)), 0) > opts.NumCtx
+//
+//   loop 1: n is the start of the retained suffix; system is empty while only the latest message is
+//   retained, afterwards exactly the system messages among msgs[0:n], in order
 //@   loop 1 invariant -1 <= i && i <= n && n - 1 <= i && n <= len(msgs) - 1 && 0 <= n
 //@   loop 1 invariant n == len(msgs) - 1 ==> len(system) == 0
 //@   loop 1 invariant cap(system) == 0 || fresh(system)
@@ -52,41 +73,43 @@ package server
 //@   loop 1 invariant forall p int :: 0 <= p && p < len(system) ==> 0 <= c19sidx(p) && c19sidx(p) < n && msgs[c19sidx(p)].Role == "system" && system[p].Role == msgs[c19sidx(p)].Role && system[p].Content == msgs[c19sidx(p)].Content
 //@   loop 1 invariant n < len(msgs) - 1 ==> i == n - 1 && len(system) == c19nsys(n)
 //@   loop 1 invariant n < len(msgs) - 1 ==> forall q int :: 0 <= q && q < n && msgs[q].Role == "system" ==> 0 <= c19nsys(q) && c19nsys(q) < len(system) && system[c19nsys(q)].Role == msgs[q].Role && system[c19nsys(q)].Content == msgs[q].Content
-//
-//   maximality: every candidate start k that was accepted fits the context ...
+//   every accepted candidate start fits the context
 //@   loop 1 invariant imageNumTokens == 1 || imageNumTokens == 768
 //@   loop 1 invariant forall k int :: n <= k && k < len(msgs) - 1 ==> c19tok(k) + ite(m.ProjectorPaths != nil, imageNumTokens * (c19nimg(len(msgs)) - c19nimg(k)), 0) <= opts.NumCtx
+//   explicit assumption (definition of c19tok, see above)
 //@   assume-at after call (tokenizeFunc) #1 : len(result.0) == c19tok(i)
-//@   loop 3 invariant ctxLen == len(s) + imageNumTokens * (c19nimg(i + rangeindex + 1) - c19nimg(i))
-//   ... and the walk stops only at a candidate that does not fit
-//@   assert-at call Debug #1 : c19tok(i) + ite(m.ProjectorPaths != nil, imageNumTokens * (c19nimg(len(msgs)) - c19nimg(i)), 0) > opts.NumCtx
-//@   assert-at call append #4 : currMsgIdx == 0 || c19tok(currMsgIdx - 1) + ite(m.ProjectorPaths != nil, imageNumTokens * (c19nimg(len(msgs)) - c19nimg(currMsgIdx - 1)), 0) > opts.NumCtx
-//@   assert-at call append #4 : forall k int :: currMsgIdx <= k && k < len(msgs) - 1 ==> c19tok(k) + ite(m.ProjectorPaths != nil, imageNumTokens * (c19nimg(len(msgs)) - c19nimg(k)), 0) <= opts.NumCtx
 //
+//   loop 2: system holds exactly the system messages among msgs[0:j]
 //@   loop 2 invariant fresh(system) && len(system) == c19nsys(j)
 //@   loop 2 invariant forall q int :: 0 <= q && q < len(msgs) ==> msgs[q].Role == old(msgs[q].Role)
 //@   loop 2 invariant forall q int :: 0 <= q && q < len(msgs) ==> len(msgs[q].Images) == old(len(msgs[q].Images))
 //@   loop 2 invariant forall p int :: 0 <= p && p < len(system) ==> 0 <= c19sidx(p) && c19sidx(p) < j && msgs[c19sidx(p)].Role == "system" && system[p].Role == msgs[c19sidx(p)].Role && system[p].Content == msgs[c19sidx(p)].Content
 //@   loop 2 invariant forall q int :: 0 <= q && q < j && msgs[q].Role == "system" ==> 0 <= c19nsys(q) && c19nsys(q) < len(system) && system[c19nsys(q)].Role == msgs[q].Role && system[c19nsys(q)].Content == msgs[q].Content
 //
-//   the break path: the retained suffix starts at i+1, so system must cover msgs[0:i+1]
-//@   assert-at call Debug #1 : forall q int :: 0 <= q && q < i + 1 && msgs[q].Role == "system" ==> 0 <= c19nsys(q) && c19nsys(q) < len(system) && system[c19nsys(q)].Role == msgs[q].Role && system[c19nsys(q)].Content == msgs[q].Content
+//@   loop 3 invariant ctxLen == len(s) + imageNumTokens * (c19nimg(i + rangeindex + 1) - c19nimg(i))
 //
+//   loop 4 rewrites msgs[currMsgIdx+cnt].Content only; loops 4/5 append exactly the images of msgs[currMsgIdx:]
 //@   loop 4 invariant forall q int :: 0 <= q && q < len(msgs) ==> msgs[q].Role == old(msgs[q].Role)
+//@   loop 4 invariant forall q int :: 0 <= q && q < len(msgs) ==> len(msgs[q].Images) == old(len(msgs[q].Images))
 //@   loop 4 invariant forall p int :: 0 <= p && p < len(system) ==> 0 <= c19sidx(p) && c19sidx(p) < currMsgIdx && msgs[c19sidx(p)].Role == "system" && system[p].Role == msgs[c19sidx(p)].Role && system[p].Content == msgs[c19sidx(p)].Content
 //@   loop 4 invariant forall q int :: 0 <= q && q < currMsgIdx && msgs[q].Role == "system" ==> 0 <= c19nsys(q) && c19nsys(q) < len(system) && system[c19nsys(q)].Role == msgs[q].Role && system[c19nsys(q)].Content == msgs[q].Content
-//   images: numbered by their position in the returned list; exactly the images of msgs[currMsgIdx:]
-//@   loop 4 invariant forall q int :: 0 <= q && q < len(msgs) ==> len(msgs[q].Images) == old(len(msgs[q].Images))
 //@   loop 4 invariant forall k int :: 0 <= k && k < len(images) ==> images[k].ID == k
 //@   loop 4 invariant len(images) == c19nimg(currMsgIdx + rangeindex + 1) - c19nimg(currMsgIdx)
 //@   loop 5 invariant forall k int :: 0 <= k && k < len(images) ==> images[k].ID == k
 //@   loop 5 invariant len(images) == c19nimg(currMsgIdx + cnt) - c19nimg(currMsgIdx) + rangeindex + 1
 //@   assert-at call append #3 : imgData.ID == len(images) && 0 <= cnt && currMsgIdx + cnt <= len(msgs) - 1
-//@   assert-at call append #4 : len(images) == c19nimg(len(msgs)) - c19nimg(currMsgIdx)
 //
-//   the final rendering (append #4 builds the message list passed to Execute #2): latest message
-//   retained, system messages in the property's own words
+//   THE FINAL RENDERING (append #4 builds the message list that is passed to Execute #2):
+//   the latest message is retained;
 //@   assert-at call Execute #2 : 0 <= currMsgIdx && currMsgIdx <= len(msgs) - 1
+//   every element of system is a system message that precedes the retained messages, and every
+//   system message that precedes the retained messages occurs in system (the property's own words);
 //@   assert-at call append #4 : forall p int :: 0 <= p && p < len(system) ==> exists q int :: 0 <= q && q < currMsgIdx && msgs[q].Role == "system" && system[p].Role == msgs[q].Role && system[p].Content == msgs[q].Content
 //@   assert-at call append #4 : forall q int :: 0 <= q && q < currMsgIdx && msgs[q].Role == "system" ==> exists p int :: 0 <= p && p < len(system) && system[p].Role == msgs[q].Role && system[p].Content == msgs[q].Content
+//   the retained suffix is the longest that fits: the next older candidate does not fit (or there is
+//   none) and every candidate from currMsgIdx on fits (the latest message alone is always kept);
+//@   assert-at call append #4 : currMsgIdx == 0 || c19tok(currMsgIdx - 1) + ite(m.ProjectorPaths != nil, imageNumTokens * (c19nimg(len(msgs)) - c19nimg(currMsgIdx - 1)), 0) > opts.NumCtx
+//@   assert-at call append #4 : forall k int :: currMsgIdx <= k && k < len(msgs) - 1 ==> c19tok(k) + ite(m.ProjectorPaths != nil, imageNumTokens * (c19nimg(len(msgs)) - c19nimg(k)), 0) <= opts.NumCtx
+//   the returned images are exactly those of the retained messages (none of a dropped message).
+//@   assert-at call append #4 : len(images) == c19nimg(len(msgs)) - c19nimg(currMsgIdx)
 // ---- end C19 ----
